@@ -124,6 +124,22 @@ def main():
             except Exception as exc:  # pylint: disable=broad-except
                 out = {'exc': common.classify_exception(exc)}
             results.append([pas, idx, out])
+            regen = int(os.environ.get('VERIF_REGENERATE', '0'))
+            if regen and pas == 0 and 'files' in out and idx in (0, len(cases) - 1):
+                # a watch loop: the same model built again and again with same-length edits of
+                # the copyright text (the year), every result dropped after its hashes were read
+                import gc as _gc  # pylint: disable=import-outside-toplevel
+                wrong = 0
+                for k in range(regen):
+                    cfg = dict(case['cfg'], copyright=f'(c) {2000 + k % 50} Acme\n{case["cfg"].get("copyright", "")}')
+                    files = shellbuild.build_files(cfg, fc, order_seed, builder=builder)
+                    for _n, content, digest in files:
+                        if digest != hashlib.md5(content.encode('utf-8')).hexdigest():
+                            wrong += 1
+                    del files
+                    if k % 7 == 0:
+                        _gc.collect()
+                results.append([pas, idx, {'regenerated': regen, 'wrong_hashes': wrong}])
     json.dump({'results': results, 'hashseed': os.environ.get('PYTHONHASHSEED')}, sys.stdout)
 
 
